@@ -15,7 +15,7 @@ def run_design_mc(pid, tier):
     """The design model AMDesign.tla satisfies every observer clause over all interleavings (small scope)."""
     cfgs = [MC_BY_PROPERTY.get(pid, "MC_AMDesign.cfg")]
     if tier == "thorough":
-        cfgs = ["MC_AMDesign.cfg", "MC_AMDesign_unrec.cfg", "MC_AMDesign_hang.cfg", "MC_AMDesign_inh.cfg", "MC_AMDesign_first.cfg", "MC_AMDesign_routes.cfg", "MC_AMDesign_nest.cfg", "MC_AMDesign_mute.cfg", "MC_AMDesign_active.cfg", "MC_AMDesign_thorough.cfg"]
+        cfgs = ["MC_AMDesign.cfg", "MC_AMDesign_unrec.cfg", "MC_AMDesign_hang.cfg", "MC_AMDesign_inh.cfg", "MC_AMDesign_first.cfg", "MC_AMDesign_routes.cfg", "MC_AMDesign_nest.cfg", "MC_AMDesign_mute.cfg", "MC_AMDesign_active.cfg", "MC_AMDesign_reload.cfg", "MC_AMDesign_thorough.cfg"]
     out = []
     for c in cfgs:
         r = vlib.tlc(pid, "mc_" + c.replace(".cfg", ""), "MC_AMDesign", c, workers=8, timeout=3000 if tier == "thorough" else 400, heap="12g")
